@@ -31,6 +31,7 @@ def run(facts, rep):
     d2_push(facts, rep)
     d3_pop(facts, rep)
     d4_pages(facts, rep)
+    d7_signed_sizes(facts, rep)
 
 
 def witnesses(rep, tier):
@@ -206,3 +207,89 @@ def d4_pages(facts, rep):
                        'the page list is modified without page_mutex: a concurrent pop finalizer can unlink the same page', ln=ln,
                        key_extra='%s%s' % (what, ln))
     rep.floor('D4', 5, 'page list writes')
+
+
+
+# ---------------------------------------------------------------------------------------------------------------
+def captured_parent_var(facts, fn, vid):
+    """(parent Fn, parent var id) of a lambda's by-reference/by-copy capture, or None"""
+    par = facts.fns.get(fn.d.get('lparent'))
+    if par is None:
+        return None
+    name = None
+    for n in fn.nodes:
+        if n.get('k') == 'var' and n.get('v') == vid:
+            name = n['n']
+            break
+    for n in par.nodes:
+        if n.get('k') == 'lambda' and n.get('fn') == fn.u:
+            for c in n.get('caps', []):
+                if c.get('n') == name and 'v' in c:
+                    return par, c['v']
+    return None
+
+
+def difference_valued(facts, fn, s, defs_cache, depth=0):
+    """may the value of expression s be a counter difference (a quantity that is negative in legal states: more blocked
+    pops than items, a push ticket below the capacity)?  A `-` over the ticket counters / the capacity, looked up through
+    local variables (any definition) and lambda captures."""
+    COUNTERS = ('head_counter', 'tail_counter', 'my_capacity')
+    for x in fn.subtree(s):
+        n = fn.nodes[x]
+        if n.get('k') == 'binop' and n['op'] == '-':
+            for y in fn.subtree(x):
+                m = fn.nodes[y]
+                if m.get('k') == 'member' and m.get('n') in COUNTERS:
+                    return True
+                if m.get('k') == 'var' and 'glob' not in m and depth < 3 and var_difference(facts, fn, m['v'], defs_cache, depth + 1, counters_only=True):
+                    return True
+        if n.get('k') == 'var' and 'glob' not in n and depth < 3 and var_difference(facts, fn, n['v'], defs_cache, depth + 1):
+            return True
+    return False
+
+
+def var_difference(facts, fn, vid, defs_cache, depth, counters_only=False):
+    """is some definition of the variable a counter difference (counters_only: ... or a counter value, used for operands of `-`)"""
+    if fn.u not in defs_cache:
+        defs_cache[fn.u] = Defs(fn)
+    defs = defs_cache[fn.u]
+    vals = [val for (v, dn), val in defs.value_of.items() if v == vid and val is not None]
+    if not vals:
+        cap = captured_parent_var(facts, fn, vid)
+        if cap:
+            return var_difference(facts, cap[0], cap[1], defs_cache, depth, counters_only)
+        return False
+    for val in vals:
+        if counters_only:
+            if any(fn.nodes[y].get('k') == 'member' and fn.nodes[y].get('n') in ('head_counter', 'tail_counter', 'my_capacity') for y in fn.subtree(val)):
+                return True
+        if difference_valued(facts, fn, val, defs_cache, depth):
+            return True
+    return False
+
+
+def d7_signed_sizes(facts, rep):
+    """K14: the queue size (tail - head) is negative while pops are blocked on an empty queue, and ticket - capacity is
+    negative until the first `capacity` pushes: every ordering comparison of such a difference must be evaluated in a signed
+    type, otherwise a legal negative state reads as a huge positive one (try_push refuses on an empty queue, try_pop claims
+    a ticket from an empty queue, push blocks on a fresh queue)."""
+    cache = {}
+    n = 0
+    for fn in facts.fns.values():
+        q = fn.q
+        if not (q.startswith(D2 + 'concurrent_bounded_queue<') or q.startswith(D2 + 'concurrent_queue<') or
+                q.startswith(D2 + 'concurrent_queue_rep<') or fn.p == D2 + 'internal_try_pop_impl'):
+            continue
+        for pos, s, node in fn.stmt_elems(('binop',)):
+            if node['op'] not in ('<', '<=', '>', '>='):
+                continue
+            if not (difference_valued(facts, fn, node['l'], cache) or difference_valued(facts, fn, node['r'], cache)):
+                continue
+            ot = node.get('ot')
+            n += 1
+            rep.ob('D7', 'K14', fn, 'the size/ticket difference at line %s is compared in a signed type' % node['ln'],
+                   bool(ot) and ot[1] == 1,
+                   'the comparison is evaluated as %s: a negative difference (pops blocked on an empty queue / ticket below the '
+                   'capacity) wraps to a huge value and the queue is reported full or non-empty in the wrong state'
+                   % ('unsigned %s-bit' % ot[0] if ot else 'a non-integer type'), ln=node['ln'], key_extra=str(node['ln']))
+    rep.floor('D7', 4, 'signed comparisons of counter differences')
